@@ -107,7 +107,44 @@ fn radio(out: &mut String, r: &messages::radio_status::RadioStatus) {
     }
 }
 
+fn type_name(m: &AisMessage) -> &'static str {
+    use ais::messages::AisMessageType;
+    match m {
+        AisMessage::PositionReport(r) => r.name(),
+        AisMessage::BaseStationReport(r) => r.name(),
+        AisMessage::StaticAndVoyageRelatedData(r) => r.name(),
+        AisMessage::BinaryAddressedMessage(r) => r.name(),
+        AisMessage::BinaryAcknowledgeMessage(r) => r.name(),
+        AisMessage::BinaryBroadcastMessage(r) => r.name(),
+        AisMessage::StandardAircraftPositionReport(r) => r.name(),
+        AisMessage::UtcDateInquiry(r) => r.name(),
+        AisMessage::UtcDateResponse(r) => r.name(),
+        AisMessage::AddressedSafetyRelatedMessage(r) => r.name(),
+        AisMessage::SafetyRelatedAcknowledgment(r) => r.name(),
+        AisMessage::SafetyRelatedBroadcastMessage(r) => r.name(),
+        AisMessage::Interrogation(r) => r.name(),
+        AisMessage::AssignmentModeCommand(r) => r.name(),
+        AisMessage::DgnssBroadcastBinaryMessage(r) => r.name(),
+        AisMessage::StandardClassBPositionReport(r) => r.name(),
+        AisMessage::ExtendedClassBPositionReport(r) => r.name(),
+        AisMessage::DataLinkManagementMessage(r) => r.name(),
+        AisMessage::AidToNavigationReport(r) => r.name(),
+        AisMessage::StaticDataReport(r) => r.name(),
+        AisMessage::LongRangeAisBroadcastMessage(r) => r.name(),
+    }
+}
+
 fn render_msg(m: &AisMessage) -> String {
+    let body = render_msg_fields(m);
+    // "<Variant> k=v ..." -> "<Variant> type_name=<AisMessageType::name()> k=v ..."
+    let tn = type_name(m).replace(' ', "_");
+    match body.split_once(' ') {
+        Some((kind, rest)) => format!("{} type_name={} {}", kind, tn, rest),
+        None => format!("{} type_name={}", body, tn),
+    }
+}
+
+fn render_msg_fields(m: &AisMessage) -> String {
     let mut o = String::new();
     macro_rules! w { ($($arg:tt)*) => { write!(o, $($arg)*).unwrap() } }
     match m {
@@ -386,6 +423,14 @@ fn do_table(name: &str, code: u8) -> String {
         "navaid" => format!("ok {}", odbg(&messages::aid_to_navigation_report::NavaidType::parse(code))),
         "sync" => format!("ok {:?}", messages::radio_status::SyncState::parse(code)),
         "rot" => format!("ok {}", rot(&messages::navigation::RateOfTurn::parse(code))),
+        "rotrate" => match messages::navigation::RateOfTurn::parse(code) {
+            None => "ok unavailable".to_string(),
+            Some(r) => format!("ok {}", of32(r.rate())),
+        },
+        "rotdir" => match messages::navigation::RateOfTurn::parse(code) {
+            None => "ok unavailable".to_string(),
+            Some(r) => format!("ok {}", odbg(&r.direction())),
+        },
         "accuracy" => format!("ok {:?}", messages::navigation::Accuracy::parse(code)),
         "dte" => format!("ok {:?}", Dte::from(code)),
         "assigned" => format!("ok {:?}", AssignedMode::parse(code)),
@@ -409,7 +454,7 @@ fn do_sweep(t: u8, key: &str, off: usize, w: usize, lo: u64, hi: u64) -> String 
     }
     let mut h: u64 = 14695981039346656037;
     let mut absent = 0u64;
-    let mut mix = |h: &mut u64, b: u64| { *h = (*h ^ b).wrapping_mul(1099511628211); };
+    let mix = |h: &mut u64, b: u64| { *h = (*h ^ b).wrapping_mul(1099511628211); };
     for raw in lo..hi {
         for i in 0..w {
             let bit = ((raw >> (w - 1 - i)) & 1) as u8;
